@@ -26,7 +26,9 @@ type valDom struct {
 	truth *ssa.Function
 	// toDecimal, when set, is kept opaque (dec(v), isnum(v)) instead of being interpreted over every numeric kind
 	toDecimal *ssa.Function
-	why       string
+	// opaqueSort keeps the sorting routines of the standard library uninterpreted
+	opaqueSort bool
+	why        string
 }
 
 // ord is the three-way comparison of a and b as one symbol; ord(b,a) is the same symbol negated.
@@ -147,6 +149,14 @@ func (d *valDom) Call(e *Engine, st *State, site ssa.CallInstruction, callee *ss
 	}
 	if d.p.IsRepo(callee) {
 		return nil, false // interpreted by the engine
+	}
+	if pp := originPkgPath(callee); d.opaqueSort && (pp == "sort" || pp == "slices" && strings.HasPrefix(callee.Name(), "Sort")) {
+		// the ordering step itself is of no interest to the rule: its results are fresh symbols
+		var res []AV
+		for i := 0; i < callee.Signature.Results().Len(); i++ {
+			res = append(res, avSym{id: e.fresh(), tag: "sorted"})
+		}
+		return []CallOut{{St: st, Res: res}}, true
 	}
 	if pp := originPkgPath(callee); (pp == "slices" || pp == "maps" || pp == "iter") && len(callee.Blocks) > 0 && depth < e.MaxDepth {
 		return e.Inline(callee, args, nil, st, depth), true
